@@ -65,11 +65,19 @@ def fit_program(prog, model=None):
             m.fit(X, lab, I_train=I)
     else:
         X = np.array(prog["X"], dtype=float)
+        Xt = X.copy()
+        if prog.get("layout"):
+            from mc import layout as LY
+            Xt = LY.apply(Xt, prog["layout"])
         if prog["model"] == "KNNSupervisedOPF":
             v = prog["val"]
-            m.fit(X.copy(), lab, np.array(v["X"], dtype=float), np.array(v["labels"], dtype=int))
+            if prog.get("alias_val"):
+                # the caller passes the very same objects as training and validation set
+                m.fit(Xt, lab, Xt, lab)
+            else:
+                m.fit(Xt, lab, np.array(v["X"], dtype=float), np.array(v["labels"], dtype=int))
         else:
-            m.fit(X.copy(), lab)
+            m.fit(Xt, lab)
     return m
 
 
